@@ -181,6 +181,54 @@ func (p *Good) UnmarshalBinary(data []byte) error {
 	return nil
 }
 
+// Good2: same decoder written differently (fields in another order, if/else inside the loop,
+// whole-value store) - must stay silent.
+type Good2 struct {
+	Arr [4]bool
+	A   bool
+	N   uint8
+	L   []int
+}
+
+func (p *Good2) UnmarshalBinary(data []byte) error {
+	if len(data) < 2 {
+		return &fixErr{}
+	}
+	*p = Good2{N: data[1]}
+	for i := 0; i < 4; i++ {
+		if data[0]&(1<<uint(i)) != 0 {
+			p.Arr[i] = true
+		} else {
+			p.Arr[i] = false
+		}
+	}
+	p.L = append(p.L[:0], int(data[0]))
+	switch data[1] {
+	case 0:
+		p.A = false
+	default:
+		p.A = true
+	}
+	return nil
+}
+
+// Half: an if/else in the loop of which one arm forgets the store.
+type Half struct{ Arr [4]bool }
+
+func (p *Half) UnmarshalBinary(data []byte) error {
+	if len(data) < 1 {
+		return &fixErr{}
+	}
+	for i := 0; i < 4; i++ {
+		if data[0]&(1<<uint(i)) != 0 {
+			p.Arr[i] = true
+		} else if data[0] == 0xff {
+			p.Arr[i] = false
+		}
+	}
+	return nil
+}
+
 // ---- R7 / registry
 type CID byte
 
@@ -401,6 +449,11 @@ func c10Fixture(c *Ctx) {
 		{"R5.overwrite|lorawan.Good.UnmarshalBinary/L", fxOK},
 		{"R5.overwrite|lorawan.Good.UnmarshalBinary/M", fxOK},
 		{"R5.overwrite|lorawan.Good.UnmarshalBinary/In.V", fxOK},
+		{"R5.overwrite|lorawan.Good2.UnmarshalBinary/Arr", fxOK},
+		{"R5.overwrite|lorawan.Good2.UnmarshalBinary/A", fxOK},
+		{"R5.overwrite|lorawan.Good2.UnmarshalBinary/N", fxOK},
+		{"R5.overwrite|lorawan.Good2.UnmarshalBinary/L", fxOK},
+		{"R5.overwrite|lorawan.Half.UnmarshalBinary/Arr", fxBad},
 		{"R6.freshband|band.newSharedBand", fxBad},
 		{"R6.freshband|band.newFreshBand", fxOK},
 		{"R6.bandglobals|band.table", fxBad},
